@@ -42,6 +42,10 @@ structure TB where
   ms : Option (Spec.MemKind × MemState)
   cyc : Nat
   out : Array String
+  /-- which API call produced each recorded token -/
+  org : Array String := #[]
+  /-- a write_byte_long has been executed -/
+  wroteLong : Bool := false
 
 def tbBus : Bus TB where
   load s a :=
@@ -60,11 +64,17 @@ def tbBus : Bus TB where
       | (false, m') => (.error .mem, { s with ms := some (k, m') })
 
 /-- `function trap(c) rec(get_cycles()); rec(c) end` -/
-def cycScript : Script TB := fun c r s => (.ok r, { s with out := (s.out.push (toString s.cyc)).push (toString c.toNat) })
+def cycScript : Script TB := fun c r s =>
+  let o := (s.out.push (toString s.cyc)).push (toString c.toNat)
+  let g := (s.org.push "trap").push "trap"
+  (.ok r, { s with out := o, org := g })
 
 abbrev AM := Machine (Trapped TB)
 
-def pushOut (m : AM) (s : String) : AM := { m with mem := { m.mem with inner := { m.mem.inner with out := m.mem.inner.out.push s } } }
+def pushOut (m : AM) (s : String) (origin : String := "") : AM :=
+  let o := m.mem.inner.out.push s
+  let g := m.mem.inner.org.push (origin ++ (if m.mem.inner.wroteLong then "+wl" else ""))
+  { m with mem := { m.mem with inner := { m.mem.inner with out := o, org := g } } }
 
 /-- read_byte_long / write_byte_long: the linear view of the memory model -/
 def longOp (m : AM) (w : String) : Option AM :=
@@ -72,14 +82,14 @@ def longOp (m : AM) (w : String) : Option AM :=
   | some (k, ms), ["rl", a] => do
     let l ← parseHex a
     match Impl.loadLarge k ms (BitVec.ofNat 32 l) with
-    | (some v, ms') => some (pushOut { m with mem := { m.mem with inner := { m.mem.inner with ms := some (k, ms') } } } (toString v.toNat))
-    | (none, _) => some (pushOut m "FAULT")
+    | (some v, ms') => some (pushOut { m with mem := { m.mem with inner := { m.mem.inner with ms := some (k, ms') } } } (toString v.toNat) "rl")
+    | (none, _) => some (pushOut m "FAULT" "rl")
   | some (k, ms), ["wl", a, v] => do
     let l ← parseHex a
     let b ← parseByte v
     match Impl.storeLarge k ms (BitVec.ofNat 32 l) b with
-    | (true, ms') => some { m with mem := { m.mem with inner := { m.mem.inner with ms := some (k, ms') } } }
-    | (false, _) => some (pushOut m "FAULT")
+    | (true, ms') => some { m with mem := { m.mem with inner := { m.mem.inner with ms := some (k, ms'), wroteLong := true } } }
+    | (false, _) => some (pushOut m "FAULT" "wl")
   | _, _ => none
 
 def runOpsApi (bus : Bus (Trapped TB)) (la pl : Nat) (m : AM) (ops : List String) : Option AM :=
@@ -90,7 +100,7 @@ def runOpsApi (bus : Bus (Trapped TB)) (la pl : Nat) (m : AM) (ops : List String
     else do
       let op ← parseApiOp w
       let (ret, m') := apiStep bus m op
-      some (match showRet ret with | some s => pushOut m' s | none => m')) m
+      some (match showRet ret with | some s => pushOut m' s ((w.splitOn ":").head!) | none => m')) m
 
 def observerCode : List Nat := [0x8D, 0x00, 0x03, 0x8E, 0x01, 0x03, 0x8C, 0x02, 0x03, 0x08, 0x68, 0x8D, 0x03, 0x03, 0xBA,
   0x8E, 0x04, 0x03, 0xAD, 0x20, 0x03, 0x49, 0xFF, 0x8D, 0x21, 0x03, 0x00,
@@ -148,8 +158,14 @@ def handleLuaApi (line : String) : String :=
             | some i => s!"token{i}:go={gl.getD i "?"}:model={ml.getD i "?"}"
             | none => s!"length:go={gl.length}:model={ml.length}"
           let ok := gres.trimAscii.toString == "ok" && go == mine
+          -- whose call produced the first differing value: a linear read, or a read after a linear write, concerns the
+          -- linear view behind read_byte_long / write_byte_long (C05) as well
+          let origin := match firstDiff with | some i => st.mem.inner.org.getD i "" | none => ""
+          let longCall := origin.startsWith "rl" || (origin.splitOn "+wl").length > 1
           let d := if ok then "agree" else s!"DIFF api:{tag}"
-          let v := if ok then "specok" else s!"VIOL C12:api:{tag}@spec={spec}:model={m}:trap={tr}"
+          let v := if ok then "specok"
+            else s!"VIOL C12:api:{tag}@spec={spec}:model={m}:trap={tr}" ++
+              (if longCall then s!",C05:api-long:{tag}@spec={spec}:origin={origin}" else "")
           s!"{d} | {v} | luaapi.{spec}.i{iters}.t{tr}"
     | _ => "bad"
   | _ => "bad"
